@@ -131,13 +131,32 @@ func predMatch(b []byte) bool {
 	return true
 }
 
+// multiTop: an unfenced text that consists of one complete JSON value directly followed by
+// the start of ANOTHER JSON object or array is not "well-formed JSON" under any reading
+// (two top-level values, e.g. a MATCH object followed by a LIE object). Trailing prose
+// without a further value, and anything inside a markdown fence, is left to the permissive
+// rule (the client documents that it strips decorations).
+func multiTop(t string) bool {
+	t = strings.TrimSpace(t)
+	if t == "" || strings.Contains(t, "```") || (t[0] != '{' && t[0] != '[') {
+		return false
+	}
+	dec := json.NewDecoder(strings.NewReader(t))
+	var first any
+	if dec.Decode(&first) != nil {
+		return false
+	}
+	rest := strings.TrimSpace(t[dec.InputOffset():])
+	return rest != "" && (rest[0] == '{' || rest[0] == '[')
+}
+
 // mayHaveAnswered applies the reference to one response as it went over the wire.
 func mayHaveAnswered(status int, delivered bool, body []byte, pred func([]byte) bool) bool {
 	if !delivered || status != 200 {
 		return false
 	}
 	for _, t := range candidateTexts(body) {
-		if carries(t, pred) {
+		if carries(t, pred) && !multiTop(t) {
 			return true
 		}
 	}
